@@ -57,3 +57,4 @@ LEVEL_TEXT = LEVEL_TEXT + (" Also: degrading a single stored value clears the re
 # texts brought up to date with the rules added in the last rounds
 LEVEL_TEXT = LEVEL_TEXT + ' The unsigned iterators leave the cursor at member + 1 in both representations (walk).'
 
+LEVEL_TEXT = LEVEL_TEXT + ' The signed iterators hand out every member of a container exactly once and end with the cursor at 0 (walked call after call over containers with the extremes, neighbours, the naught and both signs).'
